@@ -595,7 +595,7 @@ theorem crashed_nodehost_is_healed_again :
 A member whose NodeHost is gone for good cannot be restored (no recent record with its log). If its shard keeps a majority
 and nobody is waiting, the round is exactly one ADD request (`round_for_a_lost_member_is_one_add`, justified by
 `RepairJust`: fenced by the view's version, sent to a healthy member's NodeHost, naming a live NodeHost that does not host
-the shard and a non-zero id no member of the view uses); an ADD dragonboat admits extends the group's history by exactly
+the shard and a non-zero id no member of the view uses); an ADD dragonboat accepts extends the group's history by exactly
 the membership with the new member appended (`add_request_extends_the_group`); and end to end - round, scheduling, pick-up,
 execution - the group has the new member (`replacement_member_is_added`). Admissibility against what only dragonboat
 remembers (ids of removed members) is a hypothesis. Kernel-evaluated instance: `Props/WitnessReplace.added`. The later legs
